@@ -17,7 +17,7 @@ NAMES = ["a", "b", "c", "x", "y", "z", "foo", "self", "match", "case", "type", "
 ATTRS = ["a", "b", "real", "x_1", "match", "e", "err", "append"]
 STRS = ["", "a", "hello world", "it's", 'say "hi"', "tab\there", "nl\nline", "back\\slash", "{brace}", "$HOME", "~", "*.py",
         "a b  c", "ünï", "\U0001f600", "%s", "#nocomment", "`bt`", "!bang", "'''", '"""', "\x00\x7f", "&&", "||", "|", ">", "2>&1",
-        "@(x)", "$(ls)", "![a]", "${x}", "\\", "\\n", "\r"]
+        "@(x)", "$(ls)", "![a]", "${x}", "\\", "\\n", "\r", "l1\nl2\nl3\nl4", "doc\n\n  indented\nlast\n", "ab cd ef"]
 BYTES = [b"", b"ab", b"\x00\xff", b"it's", b'q"q', b"\\"]
 NUMS = [0, 1, 2, 7, 10, 255, 1000000, 2 ** 70, 0.0, 1.5, 1e10, 1e-7, 3.14, 1e308, 1j, 0j, 2.5j]
 SINGLETONS = [None, True, False, Ellipsis]
